@@ -245,6 +245,10 @@ func simC16(c *sim.Ctx) {
 			switch c.Weighted(mix...) {
 			case 0:
 				n := 1 + c.Draw(40)
+				if c.Chance(60) {
+					// nothing captured of a packet that was on the wire (snap length 0)
+					n = 0
+				}
 				it.data = make([]byte, n)
 				for i := range it.data {
 					it.data[i] = byte(len(sent)*31 + i*7 + 1)
